@@ -1,112 +1,54 @@
-/- C30 — the multipart round trip: one part through `parsePart`, then the whole body through `parseMultipart` -/
-import TornadoModel.C30.Bytes
-import TornadoModel.C30.Utf8
-import TornadoModel.C30.Header
-import TornadoModel.C06.Roundtrip
-namespace TornadoModel.C30
+/- C30 — the multipart round trip for the RFC 2231 / 5987 form (`name*=utf-8''pct`): the framing argument of
+   `Multipart.lean` replayed over `Spec.disposition2231`, with `R.parseHeader_dispValue` (Header2231.lean) in the place of
+   the quoted-string `_parse_header` lemma.  Names and filenames may be ANY scalar-valued text (control characters
+   included): they travel percent-encoded, so the header line is plain ASCII.
+   The proofs below the hand-written lemmas are those of `Multipart.lean` (same names, namespace `R`). -/
+import TornadoModel.C30.Multipart
+import TornadoModel.C30.Header2231
+namespace TornadoModel.C30.R
 open TornadoModel.C06 (Str)
 open TornadoModel.C43 (ofAscii utf8Enc emailQuote)
 open TornadoModel
 
-/-! ### character classes -/
+theorem good_of_ExtC {c : Nat} (h : ExtC c) : Good c := by
+  have := h.range
+  refine ⟨by omega, ?_⟩
+  simp only [Wire.isScalar, Bool.or_eq_true, Bool.and_eq_true, decide_eq_true_eq]
+  omega
 
-/-- a character `HTTPHeaders` accepts in a value (`_chars_are_bytes=False`) and UTF-8 can encode -/
-abbrev Good (c : Nat) : Prop := ¬ (c ≤ 8 ∨ (10 ≤ c ∧ c ≤ 31) ∨ c = 127) ∧ Wire.isScalar c = true
-abbrev AllGood (s : Str) : Prop := ∀ c ∈ s, Good c
+theorem allGood_ext (s : Str) (hs : s.all Wire.isScalar = true) : AllGood (ext s) :=
+  fun c hc => good_of_ExtC (ext_chars s hs c hc)
 
-theorem allGood_of (s : Str) (h1 : C06.hasForbidden s = false) (h2 : s.all Wire.isScalar = true) : AllGood s := by
-  intro c hc
-  refine ⟨?_, List.all_eq_true.mp h2 c hc⟩
-  intro hbad
-  have : C06.hasForbidden s = true := by
-    simp only [C06.hasForbidden, List.any_eq_true]
-    refine ⟨c, hc, ?_⟩
-    simp only [Bool.or_eq_true, Bool.and_eq_true, decide_eq_true_eq]
-    omega
-  rw [h1] at this
-  cases this
-
-theorem AllGood.noForbidden {s : Str} (h : AllGood s) : C06.hasForbidden s = false := by
-  cases hf : C06.hasForbidden s with
-  | false => rfl
-  | true =>
-    exfalso
-    simp only [C06.hasForbidden, List.any_eq_true, Bool.or_eq_true, Bool.and_eq_true, decide_eq_true_eq] at hf
-    obtain ⟨c, hc, hbad⟩ := hf
-    exact (h c hc).1 (by omega)
-
-theorem AllGood.scalar {s : Str} (h : AllGood s) : s.all Wire.isScalar = true :=
-  List.all_eq_true.mpr (fun c hc => (h c hc).2)
-
-theorem AllGood.noLf {s : Str} (h : AllGood s) : 10 ∉ s := fun hm => (h 10 hm).1 (by omega)
-theorem AllGood.noCr {s : Str} (h : AllGood s) : 13 ∉ s := fun hm => (h 13 hm).1 (by omega)
-
-theorem AllGood.append {a b : Str} (ha : AllGood a) (hb : AllGood b) : AllGood (a ++ b) := by
-  intro c hc
-  rcases List.mem_append.mp hc with h | h
-  · exact ha c h
-  · exact hb c h
-
-theorem mem_emailQuote (s : Str) (c : Nat) (h : c ∈ emailQuote s) : c ∈ s ∨ c = 92 := by
-  simp only [emailQuote, List.mem_flatMap] at h
-  obtain ⟨x, hx, hc⟩ := h
-  split at hc
-  · simp only [List.mem_cons, List.not_mem_nil, or_false] at hc
-    rcases hc with rfl | rfl
-    · right; rfl
-    · left; exact hx
-  · simp only [List.mem_singleton] at hc
-    subst hc
-    left; exact hx
-
-theorem allGood_quoted (s : Str) (h : AllGood s) : AllGood (Spec.quoted s) := by
-  intro c hc
-  rw [quoted_eq] at hc
-  simp only [List.mem_cons, List.mem_append, List.not_mem_nil, or_false] at hc
-  rcases hc with rfl | hc | rfl
-  · decide
-  · rcases mem_emailQuote s c hc with h1 | rfl
-    · exact h c h1
-    · decide
-  · decide
-
-theorem allGood_dispValue (name : Str) (filename : Option Str) (hn : AllGood name)
-    (hf : ∀ fn, filename = some fn → AllGood fn) : AllGood (dispValue name filename) := by
+theorem allGood_dispValue (name : Str) (filename : Option Str) (hn : name.all Wire.isScalar = true)
+    (hf : ∀ fn, filename = some fn → fn.all Wire.isScalar = true) : AllGood (dispValue name filename) := by
   unfold dispValue
-  have h1 : AllGood (ofAscii "form-data; name=") := by decide
-  have h2 : AllGood (ofAscii "; filename=") := by decide
-  refine (h1.append (allGood_quoted name hn)).append ?_
+  have h1 : AllGood (ofAscii "form-data; name*=") := by decide
+  have h2 : AllGood (ofAscii "; filename*=") := by decide
+  refine (h1.append (allGood_ext name hn)).append ?_
   cases filename with
   | none => intro c hc; cases hc
-  | some fn => exact h2.append (allGood_quoted fn (hf fn rfl))
+  | some fn => exact h2.append (allGood_ext fn (hf fn rfl))
 
 /-! ### the header block of one part -/
 
-def sCD : Str := ofAscii "Content-Disposition"
-def sCT : Str := ofAscii "Content-Type"
-
 def line1 (p : Spec.Part) : Str := sCD ++ 58 :: 32 :: dispValue p.name p.filename
-def line2 (ct : Str) : Str := sCT ++ 58 :: 32 :: ct
 
 /-- the text of the header block the encoder writes -/
 def headerText (p : Spec.Part) : Str :=
   line1 p ++ (match p.ctype with | some ct => 13 :: 10 :: line2 ct | none => [])
 
-theorem dispositionQ_eq (p : Spec.Part) : Spec.dispositionQ p = line1 p := by
-  have h : ofAscii "Content-Disposition: form-data; name=" = sCD ++ 58 :: 32 :: ofAscii "form-data; name=" := by decide
-  unfold Spec.dispositionQ line1 dispValue
-  rw [h]
+theorem disposition2231_eq (p : Spec.Part) : Spec.disposition2231 p = line1 p := by
+  have h : ofAscii "Content-Disposition: form-data; name*=utf-8''" =
+      sCD ++ 58 :: 32 :: (ofAscii "form-data; name*=" ++ sU8) := by decide
+  have h2 : ofAscii "; filename*=utf-8''" = ofAscii "; filename*=" ++ sU8 := by decide
+  unfold Spec.disposition2231 line1 dispValue ext
+  rw [h, h2]
   cases p.filename <;> simp [List.append_assoc]
 
-theorem ctLine_eq (ct : Str) : ofAscii "Content-Type: " ++ ct = line2 ct := by
-  have h : ofAscii "Content-Type: " = sCT ++ [58, 32] := by decide
-  rw [h, line2]
-  simp
-
-theorem utf8Enc_crlf : utf8Enc [13, 10] = [13, 10] := by decide
+theorem dispositionQ_eq (p : Spec.Part) : Spec.disposition2231 p = line1 p := disposition2231_eq p
 
 theorem contentOf_eq (p : Spec.Part) :
-    Spec.contentOf Spec.dispositionQ p = utf8Enc (headerText p) ++ ([13, 10, 13, 10] ++ (p.value ++ [13, 10])) := by
+    Spec.contentOf Spec.disposition2231 p = utf8Enc (headerText p) ++ ([13, 10, 13, 10] ++ (p.value ++ [13, 10])) := by
   unfold Spec.contentOf headerText
   rw [dispositionQ_eq]
   cases p.ctype with
@@ -118,22 +60,16 @@ theorem contentOf_eq (p : Spec.Part) :
 
 structure PartOK0 (p : Spec.Part) : Prop where
   name_ne : p.name ≠ []
-  name_good : AllGood p.name
-  fn_ok : ∀ fn, p.filename = some fn → fn ≠ [] ∧ AllGood fn
+  name_good : p.name.all Wire.isScalar = true
+  fn_ok : ∀ fn, p.filename = some fn → fn ≠ [] ∧ fn.all Wire.isScalar = true
   ct_ok : ∀ ct, p.ctype = some ct → AllGood ct ∧ C06.stripWs ct = ct
 
-/-- since the `fix:` commit d01e7a8 nothing more is needed (before it: no upload whose field name ends in a backslash) -/
 abbrev PartOK (p : Spec.Part) : Prop := PartOK0 p
 
 theorem allGood_line1 (p : Spec.Part) (hp : PartOK0 p) : AllGood (line1 p) := by
   have h1 : AllGood (sCD ++ [58, 32]) := by decide
   have := h1.append (allGood_dispValue p.name p.filename hp.name_good (fun fn h => (hp.fn_ok fn h).2))
   simpa [line1] using this
-
-theorem allGood_line2 (ct : Str) (h : AllGood ct) : AllGood (line2 ct) := by
-  have h1 : AllGood (sCT ++ [58, 32]) := by decide
-  have := h1.append h
-  simpa [line2] using this
 
 theorem allGood_headerText_scalar (p : Spec.Part) (hp : PartOK0 p) :
     (headerText p).all Wire.isScalar = true := by
@@ -145,9 +81,6 @@ theorem allGood_headerText_scalar (p : Spec.Part) (hp : PartOK0 p) :
     have := (allGood_line2 ct (hp.ct_ok ct hct).1).scalar
     simp only [List.all_cons, this, Bool.and_true, Bool.true_and]
     decide
-
-theorem not_mem_utf8Enc (s : Str) (b : Nat) (hb : b < 128) (h : b ∉ s) : b ∉ utf8Enc s :=
-  fun hm => h (utf8Enc_ascii_mem s b hm hb)
 
 /-- the blank line is found right after the header block -/
 theorem findSub_content (p : Spec.Part) (hp : PartOK0 p) (rest : Bytes) :
@@ -188,91 +121,48 @@ theorem findSub_content (p : Spec.Part) (hp : PartOK0 p) (rest : Bytes) :
     simp only [Option.map_some, List.length_append, List.length_cons, List.length_nil, Option.some.injEq]
     omega
 
-/-! ### `HTTPHeaders.parse` on the header block -/
 
-theorem stripEol_noLf (l : Str) (h : 10 ∉ l) : C06.stripEol l = l := by
-  unfold C06.stripEol
-  cases hr : l.reverse with
-  | nil => rfl
-  | cons x r =>
-    have hx : x ≠ 10 := by
-      intro e
-      apply h
-      have : x ∈ l.reverse := by rw [hr]; exact List.mem_cons_self
-      rw [← e]
-      exact List.mem_reverse.mp this
-    split
-    · rename_i heq; simp at heq; exact absurd heq.1 hx
-    · rename_i heq; simp at heq; exact absurd heq.1 hx
-    · rename_i heq; simp at heq; exact absurd heq.1 hx
-    · rename_i heq; simp at heq; exact absurd heq.1 hx
-    · rfl
+theorem ext_ne_nil (s : Str) : ext s ≠ [] := by
+  simp [ext, sU8, ofAscii]
 
-theorem stripEol_crlf (w : Str) : C06.stripEol (w ++ [13, 10]) = w := by
-  unfold C06.stripEol
-  have hr : (w ++ [13, 10]).reverse = 10 :: 13 :: w.reverse := by simp
-  rw [hr]
-  split
-  · rename_i heq; simp at heq
-  · rename_i heq; simp at heq
-  · rename_i heq; simp at heq; rw [← heq]; simp
-  · rename_i h3 heq; simp at heq; exact absurd heq.symm (h3 _)
-  · simp_all
+theorem mem_getLast_append (l l' : Str) (h : l' ≠ []) (c : Nat) (hc : c ∈ (l ++ l').getLast?) : c ∈ l' := by
+  rw [List.getLast?_append] at hc
+  cases hl : l'.getLast? with
+  | none => exact absurd (List.getLast?_eq_none_iff.mp hl) h
+  | some x =>
+    rw [hl] at hc
+    have : c = x := by simpa using hc.symm
+    subst this
+    exact List.mem_of_mem_getLast? hl
 
-theorem splitKeepLf_noLf (w : Str) (h : 10 ∉ w) : C06.splitKeepLf w = [w] := by
-  induction w with
-  | nil => rfl
-  | cons c cs ih =>
-    have hc : ¬ c = C06.cLf := fun e => h (by rw [e]; exact List.mem_cons_self)
-    have hcs : 10 ∉ cs := fun e => h (List.mem_cons_of_mem _ e)
-    rw [C06.splitKeepLf]
-    simp only [hc, if_false, ih hcs]
-
-theorem parseLine_kv (h : C06.Headers) (line0 k v : Str) (hs : C06.stripEol line0 = k ++ 58 :: 32 :: v)
-    (hk : C06.isToken k = true) :
-    C06.parseLine h line0 false = C06.add h k (C06.stripWs (32 :: v)) false := by
-  obtain ⟨hkne, _, hkcol, hkws⟩ := C06.token_props k hk
-  unfold C06.parseLine
-  simp only [hs]
-  cases k with
-  | nil => exact absurd rfl hkne
-  | cons c cs =>
-    have hc : C06.isWs c = false := hkws c (by simp)
-    simp only [List.cons_append, hc, Bool.false_eq_true, if_false]
-    have := C06.splitColon_line (c :: cs) (32 :: v) hkcol
-    simp only [List.cons_append, C06.cColon] at this
-    rw [this]
-
-theorem add_fresh (h : C06.Headers) (k v : Str) (hk : C06.isToken k = true) (hn : C06.normalize k = k)
-    (hv : C06.hasForbidden v = false) (hd : C06.dget k h.asList = none) :
-    C06.add h k v false = .ok { cache := C06.dset k v h.cache, asList := C06.dset k [v] h.asList, lastKey := some k } := by
-  unfold C06.add C06.setItem
-  simp [hk, hv, hn, hd]
-
-theorem stripWs_sp (v : Str) : C06.stripWs (32 :: v) = C06.stripWs v := by
-  unfold C06.stripWs C06.lstripWs
-  rw [List.dropWhile_cons_of_pos (by decide)]
-
-theorem stripWs_dispValue (name : Str) (filename : Option Str) :
+theorem stripWs_dispValue (name : Str) (filename : Option Str) (hn : name.all Wire.isScalar = true)
+    (hf : ∀ fn, filename = some fn → fn.all Wire.isScalar = true) :
     C06.stripWs (32 :: dispValue name filename) = dispValue name filename := by
+  have hws : ∀ c, ExtC c → C06.isWs c = false := by
+    intro c h
+    have := h.range
+    unfold C06.isWs C06.cSp C06.cTab
+    simp only [Bool.or_eq_false_iff, decide_eq_false_iff_not]
+    omega
   apply C06.stripWs_sp_value
   · intro c hc
     have h : (dispValue name filename).head? = some 102 := by
-      have : ofAscii "form-data; name=" = 102 :: ofAscii "orm-data; name=" := by decide
+      have : ofAscii "form-data; name*=" = 102 :: ofAscii "orm-data; name*=" := by decide
       unfold dispValue
       rw [this]; rfl
     rw [h] at hc
     have : c = 102 := by simpa using hc.symm
     subst this; decide
   · intro c hc
-    have h : (dispValue name filename).reverse.head? = some 34 := by
-      unfold dispValue
-      cases filename with
-      | none => simp [quoted_eq]
-      | some fn => simp [quoted_eq]
-    rw [h] at hc
-    have : c = 34 := by simpa using hc.symm
-    subst this; decide
+    rw [List.head?_reverse] at hc
+    unfold dispValue at hc
+    cases filename with
+    | none =>
+      rw [List.append_nil] at hc
+      exact hws c (ext_chars name hn c (mem_getLast_append _ _ (ext_ne_nil name) c hc))
+    | some fn =>
+      rw [← List.append_assoc] at hc
+      exact hws c (ext_chars fn (hf fn rfl) c (mem_getLast_append _ _ (ext_ne_nil fn) c hc))
 
 /-- the header block parses to a header map from which `Content-Disposition` and `Content-Type` read back -/
 theorem parse_headerText (p : Spec.Part) (hp : PartOK0 p) :
@@ -295,7 +185,7 @@ theorem parse_headerText (p : Spec.Part) (hp : PartOK0 p) :
     rw [List.append_nil, splitKeepLf_noLf _ hg1.noLf]
     simp only [List.foldlM_cons, List.foldlM_nil]
     rw [parseLine_kv C06.empty (line1 p) sCD (dispValue p.name p.filename) (stripEol_noLf _ hg1.noLf) hkCD,
-      stripWs_dispValue, add_fresh _ _ _ hkCD hnCD hdv rfl]
+      stripWs_dispValue _ _ hp.name_good (fun fn h => (hp.fn_ok fn h).2), add_fresh _ _ _ hkCD hnCD hdv rfl]
     refine ⟨_, rfl, ?_, ?_⟩
     · simp [hget, C06.getItem, hnCD', C06.empty, C06.dset, C06.dget]
     · simp [hget, C06.getItem, hnCT', C06.empty, C06.dset, C06.dget, hne]
@@ -315,7 +205,7 @@ theorem parse_headerText (p : Spec.Part) (hp : PartOK0 p) :
       have : line1 p ++ [13] ++ [C06.cLf] = line1 p ++ [13, 10] := by simp [C06.cLf]
       rw [this, stripEol_crlf]; rfl
     rw [parseLine_kv C06.empty _ sCD (dispValue p.name p.filename) hs1 hkCD,
-      stripWs_dispValue, add_fresh _ _ _ hkCD hnCD hdv rfl]
+      stripWs_dispValue _ _ hp.name_good (fun fn h => (hp.fn_ok fn h).2), add_fresh _ _ _ hkCD hnCD hdv rfl]
     simp only [bind, Except.bind]
     rw [parseLine_kv _ (line2 ct) sCT ct (stripEol_noLf _ hg2.noLf) hkCT, stripWs_sp, hsct,
       add_fresh _ _ _ hkCT hnCT hgct.noForbidden (by simp [C06.empty, C06.dset, C06.dget, hne])]
@@ -324,56 +214,9 @@ theorem parse_headerText (p : Spec.Part) (hp : PartOK0 p) :
     · simp [hget, C06.getItem, hnCT', C06.empty, C06.dset, C06.dget, hne]
 
 /-! ### one part -/
-
-/-- what one part contributes to the result (the step of `Spec.expected`) -/
-def stepOf (f : Form) (p : Spec.Part) : Form :=
-  match p.filename with
-  | some fn =>
-    if fn.isEmpty then { f with arguments := dappend p.name p.value f.arguments }
-    else { f with files := dappend p.name { filename := fn, body := p.value,
-                                             contentType := p.ctype.getD (ofAscii "application/unknown") } f.files }
-  | none => { f with arguments := dappend p.name p.value f.arguments }
-
-theorem expected_eq (parts : List Spec.Part) : Spec.expected parts = parts.foldl stepOf {} := rfl
-
-theorem value_extract (H v : Bytes) :
-    ((H ++ ([13, 10, 13, 10] ++ (v ++ [13, 10]))).take ((H ++ ([13, 10, 13, 10] ++ (v ++ [13, 10]))).length - 2)).drop
-      (H.length + 4) = v := by
-  have e : H ++ ([13, 10, 13, 10] ++ (v ++ [13, 10])) = (H ++ [13, 10, 13, 10] ++ v) ++ [13, 10] := by simp
-  have hl : ((H ++ [13, 10, 13, 10] ++ v) ++ [13, 10]).length - 2 = (H ++ [13, 10, 13, 10] ++ v).length := by
-    simp only [List.length_append, List.length_cons, List.length_nil]
-    omega
-  rw [e, hl, List.take_left' rfl]
-  have : (H ++ [13, 10, 13, 10]).length = H.length + 4 := by simp
-  rw [List.drop_left' this]
-
-theorem endsWith_crlf (x : Bytes) : endsWith (x ++ [13, 10]) crlf = true := by
-  simp [endsWith, crlf, isPrefix]
-
-/-- what `parsePart` does with the result of `_parse_header` (the part of the code after the header block) -/
-def finishPart (f : Form) (p : Spec.Part) (r : Except C43.Err (Str × List (Str × Str))) : Except Err Form :=
-  match r with
-  | .error (.uncaught k) => .error (.uncaught k)
-  | .error .unmodelled => .error .unmodelled
-  | .error .httpInput => .error .httpInput
-  | .ok (disposition, params) =>
-    if disposition ≠ ofAscii "form-data" then .error .httpInput
-    else
-      match C43.dget (ofAscii "name") params with
-      | none => .error .httpInput
-      | some name =>
-        if name.isEmpty then .error .httpInput
-        else
-          match C43.dget (ofAscii "filename") params with
-          | some fn =>
-            if fn.isEmpty then .ok { f with arguments := dappend name p.value f.arguments }
-            else .ok { f with files := dappend name { filename := fn, body := p.value,
-                                                      contentType := p.ctype.getD (ofAscii "application/unknown") } f.files }
-          | none => .ok { f with arguments := dappend name p.value f.arguments }
-
 /-- one encoded part, up to `_parse_header` -/
 theorem parsePart_content_gen (cfg : Config) (p : Spec.Part) (f : Form) (hp : PartOK0 p) :
-    parsePart cfg (Spec.contentOf Spec.dispositionQ p) f =
+    parsePart cfg (Spec.contentOf Spec.disposition2231 p) f =
       if (utf8Enc (headerText p)).length > cfg.maxPartHeaderSize then .error .httpInput
       else finishPart f p (parseHeader (dispValue p.name p.filename)) := by
   obtain ⟨hs, hparse, hcd, hctype⟩ := parse_headerText p hp
@@ -398,9 +241,9 @@ theorem parsePart_content_gen (cfg : Config) (p : Spec.Part) (f : Form) (hp : Pa
     | ok v => rfl
 
 theorem parsePart_content (cfg : Config) (p : Spec.Part) (f : Form) (hp : PartOK p) :
-    parsePart cfg (Spec.contentOf Spec.dispositionQ p) f =
+    parsePart cfg (Spec.contentOf Spec.disposition2231 p) f =
       if (utf8Enc (headerText p)).length > cfg.maxPartHeaderSize then .error .httpInput else .ok (stepOf f p) := by
-  rw [parsePart_content_gen cfg p f hp, parseHeader_dispValue p.name p.filename]
+  rw [parsePart_content_gen cfg p f hp, parseHeader_dispValue p.name p.filename hp.name_good (fun fn h => (hp.fn_ok fn h).2)]
   have hne : (ofAscii "name" = ofAscii "filename") = False := by simp; decide
   have hnm : p.name.isEmpty = false := by
     cases hnn : p.name with
@@ -427,35 +270,35 @@ def SizesOK (cfg : Config) (parts : List Spec.Part) : Prop :=
   ∀ p ∈ parts, (utf8Enc (headerText p)).length ≤ cfg.maxPartHeaderSize
 
 theorem encodePart_eq (b : Bytes) (p : Spec.Part) :
-    Spec.encodePartWith Spec.dispositionQ b p = (dashes ++ b ++ crlf) ++ Spec.contentOf Spec.dispositionQ p := by
+    Spec.encodePartWith Spec.disposition2231 b p = (dashes ++ b ++ crlf) ++ Spec.contentOf Spec.disposition2231 p := by
   simp [Spec.encodePartWith, Spec.contentOf, List.append_assoc]
 
-theorem content_ne_nil (p : Spec.Part) : Spec.contentOf Spec.dispositionQ p ≠ [] := by
+theorem content_ne_nil (p : Spec.Part) : Spec.contentOf Spec.disposition2231 p ≠ [] := by
   rw [contentOf_eq]
   simp
 
 theorem splitOn_encoded (b : Bytes) (parts : List Spec.Part) (h10 : 10 ∉ b)
-    (hfresh : ∀ p ∈ parts, Spec.occurs (dashes ++ b) (Spec.contentOf Spec.dispositionQ p) = false) :
-    splitOn (dashes ++ b ++ crlf) (parts.flatMap (Spec.encodePartWith Spec.dispositionQ b)) =
-      [] :: parts.map (Spec.contentOf Spec.dispositionQ) := by
+    (hfresh : ∀ p ∈ parts, Spec.occurs (dashes ++ b) (Spec.contentOf Spec.disposition2231 p) = false) :
+    splitOn (dashes ++ b ++ crlf) (parts.flatMap (Spec.encodePartWith Spec.disposition2231 b)) =
+      [] :: parts.map (Spec.contentOf Spec.disposition2231) := by
   induction parts with
   | nil => rfl
   | cons p ps ih =>
     have ih' := ih (fun q hq => hfresh q (List.mem_cons_of_mem _ hq))
     unfold splitOn at ih' ⊢
     rw [List.flatMap_cons, encodePart_eq,
-      List.append_assoc (dashes ++ b ++ crlf) (Spec.contentOf Spec.dispositionQ p) _,
+      List.append_assoc (dashes ++ b ++ crlf) (Spec.contentOf Spec.disposition2231 p) _,
       splitOnAux_sep _ _ (by simp [dashes])]
     congr 1
-    have hno : NoOcc (dashes ++ b ++ crlf) (Spec.contentOf Spec.dispositionQ p)
-        (ps.flatMap (Spec.encodePartWith Spec.dispositionQ b)) := by
-      have hc : Spec.contentOf Spec.dispositionQ p =
+    have hno : NoOcc (dashes ++ b ++ crlf) (Spec.contentOf Spec.disposition2231 p)
+        (ps.flatMap (Spec.encodePartWith Spec.disposition2231 b)) := by
+      have hc : Spec.contentOf Spec.disposition2231 p =
           (utf8Enc (headerText p) ++ ([13, 10, 13, 10] ++ (p.value ++ [13]))) ++ [10] := by
         rw [contentOf_eq]; simp
-      have hP : findSub (dashes ++ b) (Spec.contentOf Spec.dispositionQ p) = none := by
+      have hP : findSub (dashes ++ b) (Spec.contentOf Spec.disposition2231 p) = none := by
         have := hfresh p List.mem_cons_self
         unfold Spec.occurs at this
-        cases hf : findSub (dashes ++ b) (Spec.contentOf Spec.dispositionQ p) with
+        cases hf : findSub (dashes ++ b) (Spec.contentOf Spec.disposition2231 p) with
         | none => rfl
         | some i => rw [hf] at this; cases this
       rw [hc] at hP ⊢
@@ -464,13 +307,13 @@ theorem splitOn_encoded (b : Bytes) (parts : List Spec.Part) (h10 : 10 ∉ b)
     simpa using this
 
 theorem foldlM_contents (cfg : Config) (parts : List Spec.Part) (f : Form) (h : PartsOK parts) (hsz : SizesOK cfg parts) :
-    (parts.map (Spec.contentOf Spec.dispositionQ)).foldlM
+    (parts.map (Spec.contentOf Spec.disposition2231)).foldlM
       (fun acc p => if p.isEmpty then Except.ok acc else parsePart cfg p acc) f = .ok (parts.foldl stepOf f) := by
   induction parts generalizing f with
   | nil => rfl
   | cons p ps ih =>
-    have hemp : (Spec.contentOf Spec.dispositionQ p).isEmpty = false := by
-      cases hc : Spec.contentOf Spec.dispositionQ p with
+    have hemp : (Spec.contentOf Spec.disposition2231 p).isEmpty = false := by
+      cases hc : Spec.contentOf Spec.disposition2231 p with
       | nil => exact absurd hc (content_ne_nil p)
       | cons a r => rfl
     have hs : ¬ ((utf8Enc (headerText p)).length > cfg.maxPartHeaderSize) := Nat.not_lt.mpr (hsz p List.mem_cons_self)
@@ -481,13 +324,13 @@ theorem foldlM_contents (cfg : Config) (parts : List Spec.Part) (f : Form) (h : 
 /-- one header block over the limit: the whole body is refused with HTTPInputError -/
 theorem foldlM_contents_big (cfg : Config) (parts : List Spec.Part) (f : Form) (h : PartsOK parts)
     (hbig : ∃ p ∈ parts, (utf8Enc (headerText p)).length > cfg.maxPartHeaderSize) :
-    (parts.map (Spec.contentOf Spec.dispositionQ)).foldlM
+    (parts.map (Spec.contentOf Spec.disposition2231)).foldlM
       (fun acc p => if p.isEmpty then Except.ok acc else parsePart cfg p acc) f = .error .httpInput := by
   induction parts generalizing f with
   | nil => obtain ⟨p, hp, _⟩ := hbig; cases hp
   | cons p ps ih =>
-    have hemp : (Spec.contentOf Spec.dispositionQ p).isEmpty = false := by
-      cases hc : Spec.contentOf Spec.dispositionQ p with
+    have hemp : (Spec.contentOf Spec.disposition2231 p).isEmpty = false := by
+      cases hc : Spec.contentOf Spec.disposition2231 p with
       | nil => exact absurd hc (content_ne_nil p)
       | cons a r => rfl
     simp only [List.map_cons, List.foldlM_cons, hemp, Bool.false_eq_true, if_false,
@@ -501,21 +344,21 @@ theorem foldlM_contents_big (cfg : Config) (parts : List Spec.Part) (f : Form) (
       · exact ih (stepOf f p) (fun r hr => h r (List.mem_cons_of_mem _ hr)) ⟨q, hq', hqb⟩
 
 theorem rfind_encoded (b : Bytes) (parts : List Spec.Part) :
-    rfindSub (dashes ++ b ++ dashes) (Spec.encodeMultipart b parts) =
-      some (parts.flatMap (Spec.encodePartWith Spec.dispositionQ b)).length := by
-  have e : Spec.encodeMultipart b parts =
-      parts.flatMap (Spec.encodePartWith Spec.dispositionQ b) ++ (((dashes ++ b ++ [45]) ++ [45]) ++ [13, 10]) := by
-    simp [Spec.encodeMultipart, Spec.encodeWith, dashes, crlf, List.append_assoc]
+    rfindSub (dashes ++ b ++ dashes) (Spec.encodeMultipart2231 b parts) =
+      some (parts.flatMap (Spec.encodePartWith Spec.disposition2231 b)).length := by
+  have e : Spec.encodeMultipart2231 b parts =
+      parts.flatMap (Spec.encodePartWith Spec.disposition2231 b) ++ (((dashes ++ b ++ [45]) ++ [45]) ++ [13, 10]) := by
+    simp [Spec.encodeMultipart2231, Spec.encodeWith, dashes, crlf, List.append_assoc]
   have e2 : dashes ++ b ++ dashes = (dashes ++ b ++ [45]) ++ [45] := by simp [dashes]
   rw [e, e2, rfindSub_append_left _ _ _ 0 (rfindSub_final _)]
   rfl
 
 theorem take_encoded (b : Bytes) (parts : List Spec.Part) :
-    (Spec.encodeMultipart b parts).take (parts.flatMap (Spec.encodePartWith Spec.dispositionQ b)).length =
-      parts.flatMap (Spec.encodePartWith Spec.dispositionQ b) := by
-  have e : Spec.encodeMultipart b parts =
-      parts.flatMap (Spec.encodePartWith Spec.dispositionQ b) ++ (dashes ++ b ++ dashes ++ crlf) := by
-    simp [Spec.encodeMultipart, Spec.encodeWith, List.append_assoc]
+    (Spec.encodeMultipart2231 b parts).take (parts.flatMap (Spec.encodePartWith Spec.disposition2231 b)).length =
+      parts.flatMap (Spec.encodePartWith Spec.disposition2231 b) := by
+  have e : Spec.encodeMultipart2231 b parts =
+      parts.flatMap (Spec.encodePartWith Spec.disposition2231 b) ++ (dashes ++ b ++ dashes ++ crlf) := by
+    simp [Spec.encodeMultipart2231, Spec.encodeWith, List.append_assoc]
   rw [e, List.take_left' rfl]
 
 theorem unquoteBoundary_plain (b : Bytes) (h : b.head? ≠ some 34) : unquoteBoundary b = b := by
@@ -526,13 +369,13 @@ theorem unquoteBoundary_plain (b : Bytes) (h : b.head? ≠ some 34) : unquoteBou
     the parts, unless the count is over the limit -/
 theorem parseMultipart_encoded_eq (cfg : Config) (b : Bytes) (parts : List Spec.Part) (f : Form)
     (hen : cfg.enabled = true) (hb : b.head? ≠ some 34) (h10 : 10 ∉ b)
-    (hfresh : ∀ p ∈ parts, Spec.occurs (dashes ++ b) (Spec.contentOf Spec.dispositionQ p) = false) :
-    parseMultipart cfg b (Spec.encodeMultipart b parts) f =
+    (hfresh : ∀ p ∈ parts, Spec.occurs (dashes ++ b) (Spec.contentOf Spec.disposition2231 p) = false) :
+    parseMultipart cfg b (Spec.encodeMultipart2231 b parts) f =
       if parts.length > cfg.maxParts then .error .httpInput
-      else (parts.map (Spec.contentOf Spec.dispositionQ)).foldlM
+      else (parts.map (Spec.contentOf Spec.disposition2231)).foldlM
         (fun acc p => if p.isEmpty then Except.ok acc else parsePart cfg p acc) f := by
   unfold parseMultipart
-  have hlen : ([] :: parts.map (Spec.contentOf Spec.dispositionQ)).length - 1 = parts.length := by
+  have hlen : ([] :: parts.map (Spec.contentOf Spec.disposition2231)).length - 1 = parts.length := by
     simp only [List.length_cons, List.length_map, Nat.add_sub_cancel]
   simp only [hen, Bool.not_true, Bool.false_eq_true, if_false, unquoteBoundary_plain b hb, rfind_encoded, take_encoded,
     splitOn_encoded b parts h10 hfresh, hlen]
@@ -545,9 +388,9 @@ theorem parseMultipart_encoded_eq (cfg : Config) (b : Bytes) (parts : List Spec.
 /-- the round trip at the `parse_multipart_form_data` level -/
 theorem parseMultipart_encoded (cfg : Config) (b : Bytes) (parts : List Spec.Part)
     (hen : cfg.enabled = true) (hcount : parts.length ≤ cfg.maxParts) (hb : b.head? ≠ some 34) (h10 : 10 ∉ b)
-    (hfresh : ∀ p ∈ parts, Spec.occurs (dashes ++ b) (Spec.contentOf Spec.dispositionQ p) = false)
+    (hfresh : ∀ p ∈ parts, Spec.occurs (dashes ++ b) (Spec.contentOf Spec.disposition2231 p) = false)
     (hok : PartsOK parts) (hsz : SizesOK cfg parts) :
-    parseMultipart cfg b (Spec.encodeMultipart b parts) {} = .ok (Spec.expected parts) := by
+    parseMultipart cfg b (Spec.encodeMultipart2231 b parts) {} = .ok (Spec.expected parts) := by
   rw [parseMultipart_encoded_eq cfg b parts {} hen hb h10 hfresh, if_neg (Nat.not_lt.mpr hcount)]
   exact foldlM_contents cfg parts {} hok hsz
 
@@ -555,7 +398,7 @@ theorem parseMultipart_encoded (cfg : Config) (b : Bytes) (parts : List Spec.Par
 
 /-- the size of the header block the encoder writes for a part (what `max_part_header_size` is compared with) -/
 def headerSize (p : Spec.Part) : Nat :=
-  (utf8Enc (Spec.dispositionQ p)).length +
+  (utf8Enc (Spec.disposition2231 p)).length +
     (match p.ctype with | some ct => 2 + (utf8Enc (ofAscii "Content-Type: " ++ ct)).length | none => 0)
 
 theorem headerSize_eq (p : Spec.Part) : headerSize p = (utf8Enc (headerText p)).length := by
@@ -568,44 +411,41 @@ theorem headerSize_eq (p : Spec.Part) : headerSize p = (utf8Enc (headerText p)).
     simp only [ctLine_eq, hsp, utf8Enc_append, utf8Enc_crlf, List.length_append, List.length_cons, List.length_nil]
     try omega
 
-/-- hypotheses of the lossless clause for the quoted-string form -/
+
+
+/-- hypotheses of the lossless clause for the RFC 2231 form: as `C30.WellFormed`, except that names and filenames are
+    arbitrary non-empty scalar-valued text (no character is excluded: everything outside `[A-Za-z0-9._~-]` is
+    percent-encoded) -/
 structure WellFormed (cfg : Config) (b : Bytes) (parts : List Spec.Part) : Prop where
   enabled : cfg.enabled = true
   count : parts.length ≤ cfg.maxParts
   boundary_ne : b ≠ []
   boundary_plain : b.head? ≠ some 34
   /-- the delimiter `--boundary` occurs nowhere in what the encoder writes for a part -/
-  fresh : ∀ p ∈ parts, Spec.occurs (dashes ++ b) (Spec.contentOf Spec.dispositionQ p) = false
-  header_size : ∀ p ∈ parts, (C43.utf8Enc (Spec.dispositionQ p)).length +
-      (match p.ctype with | some ct => 2 + (C43.utf8Enc (C43.ofAscii "Content-Type: " ++ ct)).length | none => 0) ≤ cfg.maxPartHeaderSize
-  names : ∀ p ∈ parts, p.name ≠ [] ∧ C06.hasForbidden p.name = false ∧ p.name.all Wire.isScalar = true
-  filenames : ∀ p ∈ parts, ∀ fn, p.filename = some fn → fn ≠ [] ∧ C06.hasForbidden fn = false ∧ fn.all Wire.isScalar = true
+  fresh : ∀ p ∈ parts, Spec.occurs (dashes ++ b) (Spec.contentOf Spec.disposition2231 p) = false
+  header_size : ∀ p ∈ parts, headerSize p ≤ cfg.maxPartHeaderSize
+  names : ∀ p ∈ parts, p.name ≠ [] ∧ p.name.all Wire.isScalar = true
+  filenames : ∀ p ∈ parts, ∀ fn, p.filename = some fn → fn ≠ [] ∧ fn.all Wire.isScalar = true
   ctypes : ∀ p ∈ parts, ∀ ct, p.ctype = some ct → C06.hasForbidden ct = false ∧ C06.stripWs ct = ct ∧ ct.all Wire.isScalar = true
 
-/-- the hypotheses that do not mention the configured limits: a boundary without LF that does not start with a double
-    quote and occurs nowhere in the content; names, filenames and content types a client can send in a quoted-string
-    header -/
+/-- the hypotheses that do not mention the configured limits -/
 structure Sendable (b : Bytes) (parts : List Spec.Part) : Prop where
   boundary_plain : b.head? ≠ some 34
   boundary_lf : 10 ∉ b
-  fresh : ∀ p ∈ parts, Spec.occurs (dashes ++ b) (Spec.contentOf Spec.dispositionQ p) = false
-  names : ∀ p ∈ parts, p.name ≠ [] ∧ C06.hasForbidden p.name = false ∧ p.name.all Wire.isScalar = true
-  filenames : ∀ p ∈ parts, ∀ fn, p.filename = some fn → fn ≠ [] ∧ C06.hasForbidden fn = false ∧ fn.all Wire.isScalar = true
+  fresh : ∀ p ∈ parts, Spec.occurs (dashes ++ b) (Spec.contentOf Spec.disposition2231 p) = false
+  names : ∀ p ∈ parts, p.name ≠ [] ∧ p.name.all Wire.isScalar = true
+  filenames : ∀ p ∈ parts, ∀ fn, p.filename = some fn → fn ≠ [] ∧ fn.all Wire.isScalar = true
   ctypes : ∀ p ∈ parts, ∀ ct, p.ctype = some ct → C06.hasForbidden ct = false ∧ C06.stripWs ct = ct ∧ ct.all Wire.isScalar = true
 
 theorem partOK0_of (p : Spec.Part)
-    (hn : p.name ≠ [] ∧ C06.hasForbidden p.name = false ∧ p.name.all Wire.isScalar = true)
-    (hf : ∀ fn, p.filename = some fn → fn ≠ [] ∧ C06.hasForbidden fn = false ∧ fn.all Wire.isScalar = true)
+    (hn : p.name ≠ [] ∧ p.name.all Wire.isScalar = true)
+    (hf : ∀ fn, p.filename = some fn → fn ≠ [] ∧ fn.all Wire.isScalar = true)
     (hc : ∀ ct, p.ctype = some ct → C06.hasForbidden ct = false ∧ C06.stripWs ct = ct ∧ ct.all Wire.isScalar = true) :
     PartOK0 p :=
   { name_ne := hn.1
-    name_good := allGood_of _ hn.2.1 hn.2.2
-    fn_ok := fun fn hfn => ⟨(hf fn hfn).1, allGood_of _ (hf fn hfn).2.1 (hf fn hfn).2.2⟩
+    name_good := hn.2
+    fn_ok := hf
     ct_ok := fun ct hct => ⟨allGood_of _ (hc ct hct).1 (hc ct hct).2.2, (hc ct hct).2.1⟩ }
-
-theorem WellFormed.partOK0 {cfg : Config} {b : Bytes} {parts : List Spec.Part} (h : WellFormed cfg b parts)
-    (p : Spec.Part) (hp : p ∈ parts) : PartOK0 p :=
-  partOK0_of p (h.names p hp) (h.filenames p hp) (h.ctypes p hp)
 
 theorem Sendable.partsOK {b : Bytes} {parts : List Spec.Part} (h : Sendable b parts) : PartsOK parts := by
   intro p hp
@@ -616,29 +456,11 @@ theorem WellFormed.sendable {cfg : Config} {b : Bytes} {parts : List Spec.Part} 
   { boundary_plain := h.boundary_plain, boundary_lf := hlf, fresh := h.fresh, names := h.names, filenames := h.filenames,
     ctypes := h.ctypes }
 
-/-- a body with a single part, whatever its name: the result is decided by `_parse_header` on the Content-Disposition
-    value (used to evaluate the witness of the former finding at the `parse_multipart_form_data` level) -/
-theorem parseMultipart_single (cfg : Config) (b : Bytes) (p : Spec.Part) (hwf : WellFormed cfg b [p]) (h10 : 10 ∉ b) :
-    parseMultipart cfg b (Spec.encodeMultipart b [p]) {} =
-      finishPart {} p (parseHeader (dispValue p.name p.filename)) := by
-  have hcount : ¬ ([p].length > cfg.maxParts) := Nat.not_lt.mpr hwf.count
-  have hsz : ¬ ((utf8Enc (headerText p)).length > cfg.maxPartHeaderSize) := by
-    rw [← headerSize_eq]
-    exact Nat.not_lt.mpr (hwf.header_size p List.mem_cons_self)
-  have hemp : (Spec.contentOf Spec.dispositionQ p).isEmpty = false := by
-    cases hc : Spec.contentOf Spec.dispositionQ p with
-    | nil => exact absurd hc (content_ne_nil p)
-    | cons a r => rfl
-  rw [parseMultipart_encoded_eq cfg b [p] {} hwf.enabled hwf.boundary_plain h10 hwf.fresh, if_neg hcount]
-  simp only [List.map_cons, List.map_nil, List.foldlM_cons, List.foldlM_nil, hemp, Bool.false_eq_true, if_false,
-    parsePart_content_gen cfg p {} (hwf.partOK0 p List.mem_cons_self), hsz]
-  cases finishPart {} p (parseHeader (dispValue p.name p.filename)) <;> rfl
-
 /-- accepted: count and every header size within the limits (equality included) -/
 theorem parseMultipart_sendable_accept (cfg : Config) (b : Bytes) (parts : List Spec.Part) (hen : cfg.enabled = true)
     (hs : Sendable b parts) (hcount : parts.length ≤ cfg.maxParts)
     (hsz : ∀ p ∈ parts, headerSize p ≤ cfg.maxPartHeaderSize) :
-    parseMultipart cfg b (Spec.encodeMultipart b parts) {} = .ok (Spec.expected parts) :=
+    parseMultipart cfg b (Spec.encodeMultipart2231 b parts) {} = .ok (Spec.expected parts) :=
   parseMultipart_encoded cfg b parts hen hcount hs.boundary_plain hs.boundary_lf hs.fresh hs.partsOK
     (fun p hp => by rw [← headerSize_eq]; exact hsz p hp)
 
@@ -646,7 +468,7 @@ theorem parseMultipart_sendable_accept (cfg : Config) (b : Bytes) (parts : List 
 theorem parseMultipart_sendable_reject (cfg : Config) (b : Bytes) (parts : List Spec.Part) (hen : cfg.enabled = true)
     (hs : Sendable b parts)
     (hover : parts.length > cfg.maxParts ∨ ∃ p ∈ parts, headerSize p > cfg.maxPartHeaderSize) :
-    parseMultipart cfg b (Spec.encodeMultipart b parts) {} = .error .httpInput := by
+    parseMultipart cfg b (Spec.encodeMultipart2231 b parts) {} = .error .httpInput := by
   rw [parseMultipart_encoded_eq cfg b parts {} hen hs.boundary_plain hs.boundary_lf hs.fresh]
   by_cases hc : parts.length > cfg.maxParts
   · rw [if_pos hc]
@@ -655,4 +477,4 @@ theorem parseMultipart_sendable_reject (cfg : Config) (b : Bytes) (parts : List 
     · exact absurd h hc
     · exact foldlM_contents_big cfg parts {} hs.partsOK ⟨p, hp, by rw [← headerSize_eq]; exact hbig⟩
 
-end TornadoModel.C30
+end TornadoModel.C30.R
